@@ -272,7 +272,7 @@ func (wr *Writer) appendJSON(data any, depth int) {
 
 func appendDefault(wr *Writer, data any, depth int) {
 	switch {
-	case !wr.NoReflect:
+	case !wr.NoReflect || 0 < len(wr.CreateKey):
 		rv := reflect.ValueOf(data)
 		kind := rv.Kind()
 		if kind == reflect.Ptr {
